@@ -3,6 +3,7 @@ package main
 
 import (
 	"os"
+	"reflect"
 	"io"
 	"google.golang.org/grpc"
 	"context"
@@ -179,6 +180,22 @@ func (w *world) check(r *sched.Run) (string, *explore.Violation) {
 						return "", &explore.Violation{Key: "foreign-cluster-id-accepted", Msg: fmt.Sprintf("a region heartbeat stream with cluster ids %v (the cluster's id is %d) was not ended by a cluster id mismatch (%v)", ids, srvh.ClusterID, err)}
 					}
 				}
+				// every request / response call of the service: a foreign cluster id in the header is
+				// refused with the mismatch error whatever the request is about (found by reflection)
+				if v := foreignIDEverywhere(s); v != nil {
+					return "", v
+				}
+				// a region synchronisation stream: the same for every request on it
+				for _, ids := range [][]uint64{{srvh.ClusterID, srvh.ClusterID + 1}, {srvh.ClusterID + 1}, {srvh.ClusterID, srvh.ClusterID, 0}} {
+					ss := &syncStream{ctx: context.Background()}
+					for _, id := range ids {
+						ss.in = append(ss.in, &pdpb.SyncRegionRequest{Header: &pdpb.RequestHeader{ClusterId: id}, Member: &pdpb.Member{Name: "follower", ClientUrls: []string{"http://127.0.0.1:9"}}, StartIndex: 0})
+					}
+					err := s.SyncRegions(ss)
+					if err == nil || !strings.Contains(err.Error(), "mismatch cluster id") {
+						return "", &explore.Violation{Key: "foreign-cluster-id-accepted", Msg: fmt.Sprintf("a region synchronisation stream with cluster ids %v (the cluster's id is %d) was not ended by a cluster id mismatch (%v)", ids, srvh.ClusterID, err)}
+					}
+				}
 				// the cluster keeps its identity: a cluster configuration carrying another cluster
 				// id (in the header or in the body) is refused and the stored meta stays as it is
 				metaKey := srvh.Root + "/raft"
@@ -234,6 +251,74 @@ func (t *tsoStream) Recv() (*pdpb.TsoRequest, error) {
 	r := t.in[0]
 	t.in = t.in[1:]
 	return r, nil
+}
+
+// syncStream is the server side of a SyncRegions stream fed from a list of requests.
+type syncStream struct {
+	grpc.ServerStream
+	ctx context.Context
+	in  []*pdpb.SyncRegionRequest
+}
+
+func (t *syncStream) Context() context.Context            { return t.ctx }
+func (t *syncStream) Send(*pdpb.SyncRegionResponse) error { return nil }
+func (t *syncStream) Recv() (*pdpb.SyncRegionRequest, error) {
+	if len(t.in) == 0 {
+		return nil, io.EOF
+	}
+	r := t.in[0]
+	t.in = t.in[1:]
+	return r, nil
+}
+
+// foreignIDEverywhere calls every exported method of the server that has the shape of a unary gRPC
+// handler (ctx, *Request) (*Response, error) and whose request has a Header, with an otherwise empty
+// request carrying a foreign cluster id (id+1, 0): the answer must be the cluster id mismatch.
+func foreignIDEverywhere(s *srvh.Srv) (v *explore.Violation) {
+	sv := reflect.ValueOf(s.Server)
+	ctxT := reflect.TypeOf((*context.Context)(nil)).Elem()
+	errT := reflect.TypeOf((*error)(nil)).Elem()
+	n := 0
+	for i := 0; i < sv.NumMethod(); i++ {
+		m, name := sv.Method(i), sv.Type().Method(i).Name
+		mt := m.Type()
+		if mt.NumIn() != 2 || mt.NumOut() != 2 || mt.In(0) != ctxT || mt.Out(1) != errT || mt.In(1).Kind() != reflect.Ptr {
+			continue
+		}
+		hf, ok := mt.In(1).Elem().FieldByName("Header")
+		if !ok || hf.Type != reflect.TypeOf((*pdpb.RequestHeader)(nil)) {
+			continue
+		}
+		if name == "GetMembers" || name == "SyncMaxTS" || name == "GetDCLocationInfo" {
+			// GetMembers is the discovery call (answers whoever asks); SyncMaxTS and GetDCLocationInfo are
+			// PD-to-PD calls validated by their sender id (validateInternalRequest), not client requests
+			continue
+		}
+		n++
+		for _, id := range []uint64{srvh.ClusterID + 1, 0} {
+			req := reflect.New(mt.In(1).Elem())
+			req.Elem().FieldByName("Header").Set(reflect.ValueOf(&pdpb.RequestHeader{ClusterId: id}))
+			var err error
+			func() {
+				defer func() {
+					if p := recover(); p != nil {
+						err = fmt.Errorf("panic: %v", p)
+					}
+				}()
+				out := m.Call([]reflect.Value{reflect.ValueOf(context.Background()), req})
+				if !out[1].IsNil() {
+					err = out[1].Interface().(error)
+				}
+			}()
+			if err == nil || !strings.Contains(err.Error(), "mismatch cluster id") {
+				return &explore.Violation{Key: "foreign-cluster-id-accepted", Msg: fmt.Sprintf("%s with cluster id %d in its header (the cluster's id is %d) was not refused with a cluster id mismatch (%v)", name, id, srvh.ClusterID, err)}
+			}
+		}
+	}
+	if n < 20 {
+		return &explore.Violation{Key: "engine-reflection", Msg: fmt.Sprintf("only %d handler methods found", n)}
+	}
+	return nil
 }
 
 // hbStream is the server side of a RegionHeartbeat stream fed from a list of requests.
